@@ -820,8 +820,11 @@ func (m *Manager) computeParentMap() map[types.Hash256]int {
 func updateTxnProofs(txn *types.V2Transaction, updateElementProof func(*types.StateElement), numLeaves uint64) (valid bool) {
 	valid = true
 	updateProof := func(e *types.StateElement) {
+		if e.LeafIndex == types.UnassignedLeafIndex {
+			return // ephemeral elements have no proof to update
+		}
 		valid = valid && e.LeafIndex < numLeaves
-		if !valid || e.LeafIndex == types.UnassignedLeafIndex {
+		if !valid {
 			return
 		}
 		*e = e.Copy()
